@@ -462,13 +462,17 @@ LEAK_CLS = ("class Lk { public qubit q; public constructor() -> Lk = default; pu
             "function mk() -> qubit { Lk t = new Lk(); return t.out(); }\n"
             "function idq(qubit p) -> qubit { return p; }\n"
             "function gz() -> int { return 0; }\n"
+            "function mkfresh() -> Lk { return new Lk(); }\n"
+            "class Bxf { public Lk c; public constructor() -> Bxf { this.c = null; } public function fill() -> void { this.c = new Lk(); } }\n"
             "function dropo() -> int { G.o = null; return 0; }\n"
             "class Hd { public Lk a; public constructor() -> Hd { this.a = new Lk(); } public destructor() -> void { int z = gz(); this.a = null; } }\n"
             "function viad() -> qubit { if (true) { Hd b = new Hd(); return b.a.q; } qubit u; return u; }\n")
 LEAKS = {"method-of-local": "qubit s = mk();", "temp-field": "qubit s = new Lk().q;", "temp-method": "qubit s = new Lk().out();",
          "temp-through-function": "qubit s = idq(new Lk().q);", "return-while-destructor-calls": "qubit s = viad();",
          "owner-dropped-by-index": "G.o = new Lr(); qubit s = G.o.r[dropo()];", "temp-then-assigned": "qubit s; s = new Lk().q;"}
-LEAK_FRESH = {"object": ("Lk d = new Lk();", ["d.q"]), "scalar": ("qubit d;", ["d"]), "register": ("qubit[2] d;", ["d[0]", "d[1]"])}
+LEAK_FRESH = {"object": ("Lk d = new Lk();", ["d.q"]), "scalar": ("qubit d;", ["d"]), "register": ("qubit[2] d;", ["d[0]", "d[1]"]),
+              # (seed C03-4) the new qubit is created in ANOTHER call frame while the leaked handle is a local of the caller
+              "object-made-in-function": ("Lk d = mkfresh();", ["d.q"]), "object-made-in-method": ("Bxf d = new Bxf(); d.fill();", ["d.c.q"])}
 
 
 def leaked_handle_programs():
